@@ -40,7 +40,8 @@ F32_BITS = [f32(x) for x in (1e9, 0.0, -0.0, 1.0, 3.14, 16777216.0, 1e-7, 3.4028
 STRS = [b"", b"a", b"hello", b'"\\/\b\f\n\r\t', b"<>&", "  ".encode(), "é".encode(), "€".encode(), "😀".encode(),
         b"\xff", b"\xc3", b"a\xe2\x82", b"\xed\xa0\x80", b"a\xffb\xfe", bytes(range(256)), b"x" * 23, b"x" * 24, b"y" * 255, b"y" * 256,
         b"z" * 63, b"z" * 64, b"z" * 65,        # around the parsers' internal 64-byte buffers
-        b"\x00", b"\x7f", b"\x1f", b"test", "aé\n€".encode(), b"\\u0041", b"'", b"\xf0\x9f\x98", b"\xc0\xaf"]
+        b"\x00", b"\x7f", b"\x1f", b"test", "aé\n€".encode(), b"\\u0041", b"'", b"\xf0\x9f\x98", b"\xc0\xaf",
+        b"\\", b"ends in a backslash\\", b'\\"', b'"', b"\\\\", b'a\\\\"b\\']      # the encoder's escapes directly in front of the closing quote
 KEYS_POOR = [b"k1", b"k2", b"k3", b"k4"]
 KEYS_RICH = {1: b"", 2: "é€".encode()}
 BOOLS = [[1], [0]]
